@@ -114,6 +114,10 @@ type payload struct {
 	Template *Template `json:"template,omitempty"`
 	NotSelf  *NotSelf  `json:"notself,omitempty"`
 	Nest     *Nest     `json:"nest,omitempty"`
+	Reuse    *Reuse    `json:"reuse,omitempty"`
+	// ReusePermille > 0: the template ran on a VM whose first run was aborted
+	// after that fraction of its instructions (TestVMReuseAfterAbort)
+	ReusePermille int `json:"reuse_permille,omitempty"`
 	Source   string    `json:"source"` // echo
 }
 
@@ -152,6 +156,14 @@ func runOnce(src string, names []string, d time.Duration) runResult {
 	}
 	return runResult{Vars: vars}
 }
+
+// currentRunner is how evalTemplate executes a script: through the Script API
+// (runScript), or - TestVMReuseAfterAbort - on a VM that is run a second time
+// after its first run was aborted somewhere in the middle.
+var currentRunner = runScript
+
+// reusePermille is non-zero while currentRunner is the reused-VM runner.
+var reusePermille int
 
 // runScript runs with the watchdog; a single expiry is retried once.
 func runScript(src string, names ...string) runResult {
@@ -394,7 +406,7 @@ func evalTemplate(tp *Template, bypassKnown bool) (v verdict, src string) {
 	default:
 		v.Zone = "either"
 	}
-	r := runScript(src, "out", "tr", "ch", "cn")
+	r := currentRunner(src, "out", "tr", "ch", "cn")
 	switch {
 	case r.CompileErr != nil:
 		v.Fail = fmt.Sprintf("generated program does not compile: %v", r.CompileErr)
@@ -538,7 +550,7 @@ func checkTemplate(t ev.TB, test string, tp *Template) {
 	if msg, skip := afterFailure(tp.Render()); skip {
 		return
 	} else if msg != "" {
-		ev.Fail(t, test, payload{Kind: "template", Template: tp, Source: tp.Render()}, "%s", failText(msg, tp.Render()))
+		ev.Fail(t, test, payload{Kind: "template", Template: tp, Source: tp.Render(), ReusePermille: reusePermille}, "%s", failText(msg, tp.Render()))
 		return
 	}
 	v, src := evalTemplate(tp, false)
@@ -548,7 +560,7 @@ func checkTemplate(t ev.TB, test string, tp *Template) {
 	}
 	if v.Fail != "" {
 		recordFailure(src, v.Fail)
-		ev.Fail(t, test, payload{Kind: "template", Template: tp, Source: src}, "%s", failText(v.Fail, src))
+		ev.Fail(t, test, payload{Kind: "template", Template: tp, Source: src, ReusePermille: reusePermille}, "%s", failText(v.Fail, src))
 		return
 	}
 	// DESIGN.md: non-trivial = depth >= 1025 or a closure captured a parameter
@@ -1237,6 +1249,11 @@ func replayFile(t *testing.T, path string, known bool) (failMsg string) {
 		if err := p.Template.validate(); err != nil {
 			t.Fatalf("%s: %v", path, err)
 		}
+		if pm := p.ReusePermille; pm > 0 {
+			reusePermille = pm
+			currentRunner = reusedVMRunner(func(total int) int { return 1 + total*pm/1000 })
+			defer func() { currentRunner, reusePermille = runScript, 0 }()
+		}
 		if known {
 			v, _ := evalTemplate(p.Template, true)
 			return v.Fail
@@ -1250,6 +1267,11 @@ func replayFile(t *testing.T, path string, known bool) (failMsg string) {
 			t.Fatalf("%s: no notself payload", path)
 		}
 		checkNotSelf(t, test, p.NotSelf)
+	case "reuse":
+		if p.Reuse == nil {
+			t.Fatalf("%s: no reuse payload", path)
+		}
+		checkReuse(t, test, p.Reuse)
 	case "nest":
 		if p.Nest == nil || len(p.Nest.Ops) == 0 || len(p.Nest.Ops) != len(p.Nest.Init) {
 			t.Fatalf("%s: no nest payload", path)
